@@ -153,19 +153,112 @@ def job_filename(jc):
     bare = z3.Concat(H, z3.Loop(z3.Concat(z3.Union(z3.Re("_"), z3.Re("-")), H), 0, K))
     _included(jc, canon, whole, "a canonical emoji_u<hex>(_<hex>)* name is matched from first to last character", f"{jc.prop_id}:filename:canonical", lambda w: w + ".svg")
     _included(jc, bare, whole, "a bare <hex>([-_]<hex>)* name is matched from first to last character", f"{jc.prop_id}:filename:bare", lambda w: w + ".svg")
-    # translator validation + greedy-match semantics on concrete names (the C engine decides how a name is cut up)
+    # translator validation on fixed patterns (independent of the repo's state): z3 membership == re.fullmatch
+    for pat, words in ((r"(?:^ab)?(?:[-_]?([0-9a-f]{1,}))+", ["ab1f", "1f_2", "ab", "", "1f-", "zz"]), (r"a{2,3}(b|cd)*", ["aa", "aaacdb", "a", "aaaa", "aab"])):
+        R = to_z3(sp.parse(pat), {})
+        for w in words:
+            v, _, _ = core.check([], z3.InRe(z3.StringVal(w), R), timeout_ms=10000)
+            jc.concrete_validations += 1
+            if (v == core.Verdict.SAT) != (re.fullmatch(pat, w) is not None):
+                raise core.HarnessError(f"regex -> z3 translation disagrees with re on {pat!r} / {w!r}")
+    # greedy-match semantics on concrete names (the C engine decides how a name is cut up)
     samples = ["emoji_u1f600.svg", "emoji_u10fffd.svg", "emoji_u1f468_200d_1f469_200d_1f467.svg", "1F1E6-1F1FA.svg", "emoji_u0023_fe0f_20e3.svg", "emoji_uE0067.svg", "emoji_u100000_10ffff.svg", "a.svg", "emoji_u0.svg"]
     for a, b in itertools.product(("1", "1f", "1f6", "1f60", "1f600", "10ffff", "0041", "E0067"), repeat=2):
         samples.append(f"emoji_u{a}_{b}.svg")
+    import regex as real_regex
+    from symx.regex_model import RegexModule
+
+    for name in samples + ["", "zz", "emoji_u", "--1f", "emoji_u1f600_", "g_1f600.svg", "emoji_uzz_1f.svg"]:
+        a, b = real_regex.search(pattern, name), RegexModule().search(pattern, name)
+        jc.concrete_validations += 1
+        if (a is None) != (b is None) or (a is not None and (a.captures(1) != b.captures(1) or a.group(0) != b.group(0))):
+            raise core.HarnessError(f"symx.regex_model disagrees with the regex module on {pattern!r} / {name!r}")
     for name in samples:
         jc.concrete_validations += 1
         bad = replay_name({"name": name})
         if bad is not None:
             jc.violation(f"{jc.prop_id}:filename:sample", "from_filename reads each hex run between separators as one code point", {"name": name}, bad, replay_name)
-        m = re.match(pattern, name)  # the tree we translated is Python re's reading of the same pattern text
-        if m is None or m.group(0) != name[: name.index(".")]:
-            jc.inconclusive.append(f"{jc.job.name}: re and the translated pattern disagree on {name!r}")
+
+
+# ------------------------------------------------------------------ the whole function on symbolic names
+
+
+def _hexval(t):
+    return z3.If(t <= 57, t - 48, z3.If(t <= 70, t - 55, t - 87))
+
+
+def job_names_sym(jc):
+    """codepoints.from_filename executed (instrumented from its current source, `regex` replaced by the backtracking
+    matcher in symx/regex_model.py) on file names  [emoji_u] H ([-_] H)* .svg  whose hex digits are symbolic
+    (any of 0-9a-fA-F) and whose separators are symbolic ('-' or '_'); run lengths are the job's parameter.
+    The result must be the tuple of the values of the hex runs, in order."""
+    from symx import strings
+    from symx.regex_model import RegexModule
+
+    jc.encode(CP.from_filename)
+    prefix, lens = jc.params["prefix"], jc.params["lens"]
+    g = strings.load_instrumented("nanoemoji.codepoints", rebind={"regex": RegexModule()})
+    names = [f"h{i}_{j}" for i, n in enumerate(lens) for j in range(n)] + [f"sep{i}" for i in range(1, len(lens))]
+    inp = {"prefix": prefix, "lens": list(lens)}
+    inp.update({n: core.SymNum(z3.Int(n)) for n in names})
+
+    def build():
+        chars = [ord(ch) for ch in prefix]
+        runs = []
+        for i, n in enumerate(lens):
+            if i:
+                sep = core.integer(f"sep{i}", 45, 95)
+                core.assume(core.SymBool(z3.Or(sep.t == 45, sep.t == 95)))
+                chars.append(sep)
+            run = []
+            for j in range(n):
+                c = core.integer(f"h{i}_{j}", 48, 102)
+                core.assume(core.SymBool(z3.Or(z3.And(c.t >= 48, c.t <= 57), z3.And(c.t >= 65, c.t <= 70), z3.And(c.t >= 97, c.t <= 102))))
+                run.append(c)
+            runs.append(run)
+            chars += run
+        return SymStr(chars + [ord(ch) for ch in ".svg"]), runs
+
+    def body():
+        name, runs = build()
+        return runs, g.from_filename(name)
+
+    results = jc.explore(body, max_paths=20000, catch=(ValueError,))
+    key = f"{jc.prop_id}:filename:function"
+    for r in results:
+        if not jc.no_exception(r, inp, replay_sym_name, key + ":raises"):
+            continue
+        runs, got = r.value
+        jc.reach(r, "ok")
+        want = []
+        for run in runs:
+            v = z3.IntVal(0)
+            for c in run:
+                v = v * 16 + _hexval(c.t)
+            want.append(v)
+        ok = len(got) == len(want)
+        conj = [z3.BoolVal(ok)] + ([core.as_term(a) == b for a, b in zip(got, want)] if ok else [])
+        jc.prove(r, z3.And(*conj), "from_filename returns exactly the hex runs of the name as code points, in order", inp, replay_sym_name, key=key)
+    jc.expect_reached("ok")
+
+
+def replay_sym_name(inp):
+    lens, prefix = inp["lens"], inp["prefix"]
+    name = prefix
+    for i, n in enumerate(lens):
+        if i:
+            name += chr(int(inp[f"sep{i}"]))
+        name += "".join(chr(int(inp[f"h{i}_{j}"])) for j in range(n))
+    return replay_name({"name": name + ".svg"})
+
+
+from symx.strings import SymStr  # noqa: E402
 
 
 def jobs(tier):
-    return [Job("from_filename[pattern]", job_filename)]
+    js = [Job("from_filename[pattern]", job_filename)]
+    shapes = [(1,), (4,), (6,), (2, 1), (5, 4), (4, 4, 5)] if tier == "quick" else [(1,), (2,), (3,), (4,), (5,), (6,), (1, 1), (2, 1), (4, 4), (5, 4), (6, 6), (2, 2, 2), (5, 4, 4), (4, 4, 4, 5)]
+    for lens in shapes:
+        for prefix in ("emoji_u", ""):
+            js.append(Job(f"from_filename[{prefix or 'bare'}|{','.join(map(str, lens))}]", job_names_sym, prefix=prefix, lens=lens))
+    return js
